@@ -559,7 +559,7 @@ pub fn gen_foreign(rng: &mut Rng, n: usize) -> Vec<Foreign> {
             9 => "wal-".to_string(),
             10 => format!("{}bad-{}", crate::simfs::NONUTF8_PREFIX, digits(rng, 4)),
             11 => format!("wal-{}", "９".repeat(6) + &digits(rng, 2)), // full-width digits, 3 bytes each -> 24 bytes
-            12 => (*rng.pick(&["wal-99999999999999999999", "wal-18446744073709551616", "wal-20000000000000000000", "lock-123", "wal--0000000000000000007", "wal\u{e9}0000000000000000001", "wa\u{e9}-0000000000000000001", "wal-\u{e9}000000000000000001", "wal-000000000000000000\u{e9}"])).to_string(),
+            12 => (*rng.pick(&["wal-99999999999999999999", "wal-18446744073709551616", "wal-20000000000000000000", "lock-123", "wal--0000000000000000007", "wal\u{e9}0000000000000000001", "wa\u{e9}-0000000000000000001", "wal-\u{e9}000000000000000001", "wal-000000000000000000\u{e9}", "wal-wal-0000000000000007", "wal-wal-0000000000000001", "wal-wal-wal-000000000002"])).to_string(),
             // valid WAL name (only dirs / symlinks use it): far above the live range, or right in it
             _ => format!("wal-{:020}", if rng.chance(1, 2) { 900_000 + rng.below(1000) } else { 1 + rng.below(8) }),
         };
